@@ -173,6 +173,8 @@ pub struct XEnc {
     /// every XML part indented: a line break and two spaces per level between adjacent tags (never between an opening tag
     /// and its own closing tag, never next to text)
     pub indent: bool,
+    /// with `indent`: the inserted line ends are CR LF instead of LF (XML 1.0 2.3 production S: both are white space)
+    pub crlf: bool,
     /// in every .rels part write Target before Type (Id, Target, Type as some writers do)
     pub rels_target_first: bool,
     /// <row> elements never carry r (the cells still do, unless cell_r is implicit too)
@@ -209,7 +211,7 @@ impl Default for XEnc {
     fn default() -> Self {
         XEnc {
             prefix: false, row_r: RMode::Explicit, cell_r: RMode::Explicit, dim: DimMode::Exact, target: TargetMode::Relative,
-            upper_parts: false, upper_root: false, apply_nf: 0, method: Method::Deflated, explicit_t_n: false, empty_rows: false, reorder_members: false, rid_shuffle: false, indent: false, rels_target_first: false, rows_never_r: false, split_text_nodes: false, comments: false, extras: false, bool_words: false, sst_count_refs: false, numfmt_code_first: false, shared_members_carry_text: false, cell_attrs_reversed: false, odd_table_part_names: false, sheet_subfolder: false, lean_markup: false,
+            upper_parts: false, upper_root: false, apply_nf: 0, method: Method::Deflated, explicit_t_n: false, empty_rows: false, reorder_members: false, rid_shuffle: false, indent: false, crlf: false, rels_target_first: false, rows_never_r: false, split_text_nodes: false, comments: false, extras: false, bool_words: false, sst_count_refs: false, numfmt_code_first: false, shared_members_carry_text: false, cell_attrs_reversed: false, odd_table_part_names: false, sheet_subfolder: false, lean_markup: false,
         }
     }
 }
@@ -590,7 +592,7 @@ pub fn parts(b: &XBook, enc: &XEnc) -> Vec<(String, Vec<u8>)> {
         out.push_str(rest);
         out
     };
-    let to_b = |v: Vec<(String, String)>| v.into_iter().map(|(a, b)| { let b = reorder_rels(&a, b); let b = if enc.lean_markup && a.ends_with(".rels") { b.replace("\"/>", "\"></Relationship>") } else { b }; let b = if enc.comments { comment_xml(&b) } else { b }; (a, if enc.indent { indent_xml(&b) } else { b }.into_bytes()) }).collect::<Vec<_>>();
+    let to_b = |v: Vec<(String, String)>| v.into_iter().map(|(a, b)| { let b = reorder_rels(&a, b); let b = if enc.lean_markup && a.ends_with(".rels") { b.replace("\"/>", "\"></Relationship>") } else { b }; let b = if enc.comments { comment_xml(&b) } else { b }; (a, if enc.indent { if enc.crlf { indent_xml_crlf(&b) } else { indent_xml(&b) } } else { b }.into_bytes()) }).collect::<Vec<_>>();
     all.extend(to_b(head));
     if enc.reorder_members {
         all.extend(to_b(sheet_parts));
@@ -613,6 +615,9 @@ pub fn parts(b: &XBook, enc: &XEnc) -> Vec<(String, Vec<u8>)> {
 
 /// White space between adjacent tags only (`</a><b>`, `<a><b>`, `<a/><b>`, `</a></b>`), so no text node of the document changes.
 pub fn indent_xml(x: &str) -> String { between_tags(x, false) }
+/// `indent_xml` with CR LF line ends in the inserted white space
+pub fn indent_xml_crlf(x: &str) -> String { CRLF.with(|c| c.set(true)); let r = between_tags(x, false); CRLF.with(|c| c.set(false)); r }
+thread_local! { static CRLF: std::cell::Cell<bool> = const { std::cell::Cell::new(false) }; }
 /// `<!--c-->` between adjacent tags instead of white space
 pub fn comment_xml(x: &str) -> String { between_tags(x, true) }
 fn between_tags(x: &str, comments: bool) -> String {
@@ -636,7 +641,7 @@ fn between_tags(x: &str, comments: bool) -> String {
             if closing { depth = depth.saturating_sub(1); }
             let after_text = std::mem::replace(&mut text_before, false) || mixed;
             if closing { mixed = false; }
-            if i > 0 && b[i - 1] == b'>' && !after_text && !(closing && prev_open) && !x[..i].ends_with("?>\n") { if comments { out.push_str("<!--c-->"); } else { out.push('\n'); for _ in 0..depth { out.push_str("  "); } } }
+            if i > 0 && b[i - 1] == b'>' && !after_text && !(closing && prev_open) && !x[..i].ends_with("?>\n") { if comments { out.push_str("<!--c-->"); } else { if CRLF.with(|c| c.get()) { out.push('\r'); } out.push('\n'); for _ in 0..depth { out.push_str("  "); } } }
             out.push_str(tag);
             prev_open = !closing && !selfc;
             if prev_open { depth += 1; }
